@@ -476,7 +476,8 @@ class BatcherWorld:
         for B in self.batches:
             keys = [k for k, _ in B.items]
             if len(keys) != len(set(keys)):
-                self.viol('C11', 'batcher.key_twice_in_batch', 'a batch carries a key twice',
+                # without cancellations this is C11's clause; with them it is how cancelling one caller harms the others
+                self.viol('C09' if cancel_world else 'C11', 'batcher.key_twice_in_batch', 'a batch carries a key twice',
                           f'batch {B.b}: {keys}', cancel_world=cancel_world)
             if not keys:
                 self.viol('C10', 'batcher.empty_batch', 'batch function called with an empty batch', f'batch {B.b}')
